@@ -200,3 +200,75 @@ def check_term_kinds(ctx, lib, rule):
         ok = len(set(vals)) >= 1 and (bool(lits) or any(suffix_match(c[1], "from") for c in sym.calls(t))) and not other
         ctx.expect(ok, rule, "LTerm::from<%s>|builds=Val(%s)" % (src, kind), site_of(fn), "a %s literal must become Val(%s)" % (src, kind))
     ctx.floor(rule, nf, 4, "literal conversions")
+
+
+_LIT_KIND = {"bool": "Bool", "isize": "Number", "char": "Char", "&str": "String", "str": "String", "std::string::String": "String"}
+
+
+def check_literal_comparisons(ctx, lib, rule):
+    """Answers are observed through `==` between a term / value / result and a Rust literal (`result.q == 5`,
+    `LValue == "a"`): the forty `PartialEq` impls between LTerm / LValue / LResult and bool, isize, char, &str,
+    str, String, LValue, LTerm are siblings of one shape - true exactly when the container holds the literal's
+    kind and its payload equals the literal, false for every other kind.  Finite truth table per impl."""
+    n = 0
+    ev = sym.Evaluator(lib, inline=lambda p, f: False)
+    for p, fn in sorted(lib.fns.items()):
+        if "PartialEq<" not in p or not p.endswith("::eq") or "hir" not in fn or fn.get("in_test_mod"):
+            continue
+        if p.startswith("<"):
+            cont = p[1:].split(" as ")[0]
+            lit = p.split("PartialEq<", 1)[1].rsplit(">>::eq", 1)[0]
+            ci, li = 0, 1
+        elif " for " in p:
+            cont = p.split("PartialEq<", 1)[1].split("> for ")[0]
+            lit = p.split("> for ", 1)[1].rsplit(">::eq", 1)[0]
+            ci, li = 1, 0
+        else:
+            continue
+        if cont.split("::")[-1] not in ("LTerm", "LValue", "LResult") or not cont.startswith("crate::"):
+            continue
+        kind = _LIT_KIND.get(lit)
+        if kind is None and lit not in ("crate::lvalue::LValue", "crate::lterm::LTerm"):
+            continue
+        if cont.endswith("LValue") and kind is None:
+            continue
+        n += 1
+        ctx.fn_seen(p)
+        t = ev.fn_term(fn)
+        eff, m = tables.flatten(t)
+        C = lambda x: isinstance(x, tuple) and x[:2] == ("param", ci)
+        L = lambda x: isinstance(x, tuple) and x[:2] == ("param", li)
+        why = ""
+        ok = not [e for e in eff if not tables.harmless_effect(e)]
+        if ok and lit == "crate::lterm::LTerm":
+            ok = m[0] == "binop" and m[1] == "Eq" and {True} == {(x[0] == "field" and C(x[1]) and x[2] == "0") or L(x) for x in (m[2], m[3])} and any(L(x) for x in (m[2], m[3]))
+            why = "a result equals a term exactly when its wrapped term does"
+        elif ok:
+            ok = m[0] == "match" and C(m[1])
+            why = "must match on the container"
+            if ok:
+                hits = 0
+                for pat_, g, b in m[2]:
+                    r = tables.result(b)
+                    if r == ("lit", "Bool(false)") and g is None:
+                        continue
+                    # the one arm that may be true: the literal's kind, payload == literal
+                    chain = []
+                    x = None
+                    if r[0] == "binop" and r[1] == "Eq" and g is None:
+                        a, b_ = r[2], r[3]
+                        x = a if L(b_) else (b_ if L(a) else None)
+                    while x is not None and x[0] == "proj":
+                        chain.append(x[2].split("::")[-1])
+                        x = x[1]
+                    want = ([kind] if cont.endswith("LValue") else ([kind, "Val"] if kind else ["Val"]))
+                    if x is not None and C(x) and chain == want:
+                        hits += 1
+                    else:
+                        ok = False
+                        why = "arm `%s` yields %s" % (show(pat_, maxdepth=3)[:40], show(r, maxdepth=4)[:60])
+                if ok and hits != 1:
+                    ok = False
+                    why = "%d arms compare the payload (exactly one expected)" % hits
+        ctx.expect(ok, rule, "%s==%s|%s" % (cont.split("::")[-1], lit.split("::")[-1], "container-left" if ci == 0 else "literal-left"), site_of(fn), "`%s == %s` must be true exactly when the %s holds a %s whose payload equals the literal; %s" % (cont.split("::")[-1], lit, cont.split("::")[-1], kind or lit.split("::")[-1], why))
+    ctx.floor(rule, n, 36, "literal comparison impls (LTerm / LValue / LResult x literal kinds, both operand orders)")
